@@ -183,6 +183,20 @@ impl BinRead for CimMode {
         let submode = u8::read_options(reader, endian, ())?;
         let seltype = u8::read_options(reader, endian, ())?;
 
+        // the u8 -> submode conversions below are only defined for known submodes; an unknown
+        // one from the wire is a decode error, not a panic
+        let submode_ok = match discrim {
+            0 => submode <= CimSubModeNormal::PitInstructions as u8,
+            3 => submode <= CimSubModeGarage::Pass as u8,
+            _ => true,
+        };
+        if !submode_ok {
+            return Err(binrw::Error::BadMagic {
+                pos,
+                found: Box::new(submode),
+            });
+        }
+
         let res = match discrim {
             0 => Self::Normal(submode.into()),
             1 => Self::Options,
